@@ -650,6 +650,10 @@ func (w *World) callEdges() map[*ssa.Function][]*ssa.Function {
 						} else if c.Origin() != nil && inSet[c.Origin()] {
 							edges[fn] = append(edges[fn], c.Origin())
 						}
+					} else if self := closureSelfCall(fn, com.Value); self != nil {
+						// `var walk func(…); walk = func(…) { … walk(…) … }`: the closure calls
+						// itself through the variable it is stored in
+						edges[fn] = append(edges[fn], self)
 					}
 					// closures passed as arguments may be called by the callee: treat as edge
 					for _, a := range com.Args {
@@ -835,4 +839,49 @@ func (w *World) errDropSites() []errDropSite {
 		}
 	}
 	return out
+}
+
+// closureSelfCall: inside closure fn, callee is a load of a captured variable into which
+// fn's own closure value is stored: a recursive call of fn. Returns fn, or nil.
+func closureSelfCall(fn *ssa.Function, callee ssa.Value) *ssa.Function {
+	if fn.Parent() == nil {
+		return nil
+	}
+	ld, ok := callee.(*ssa.UnOp)
+	if !ok || ld.Op != token.MUL {
+		return nil
+	}
+	fv, ok := ld.X.(*ssa.FreeVar)
+	if !ok {
+		return nil
+	}
+	idx := -1
+	for i, v := range fn.FreeVars {
+		if v == fv {
+			idx = i
+		}
+	}
+	if idx < 0 {
+		return nil
+	}
+	// in the parent: the MakeClosure of fn, its binding for that free variable, and a store of the closure into it
+	for _, b := range fn.Parent().Blocks {
+		for _, ins := range b.Instrs {
+			mc, ok := ins.(*ssa.MakeClosure)
+			if !ok || mc.Fn != ssa.Value(fn) || idx >= len(mc.Bindings) {
+				continue
+			}
+			cell := mc.Bindings[idx]
+			if refs := cell.Referrers(); refs != nil {
+				for _, r := range *refs {
+					if st, ok := r.(*ssa.Store); ok && st.Addr == cell {
+						if v, ok := st.Val.(*ssa.MakeClosure); ok && v.Fn == ssa.Value(fn) {
+							return fn
+						}
+					}
+				}
+			}
+		}
+	}
+	return nil
 }
